@@ -153,7 +153,7 @@ pub fn param_list_with_omitted_var<S: Src>(s: &mut S) {
 macro_rules! hs {
     ($($n:ident => $f:ident;)*) => {
         harnesses! {
-            $( #[kani::unwind(5)] #[kani::stub(std::fmt::format, crate::stubs::fmt_stub)] #[kani::stub(std::hash::RandomState::new, crate::stubs::rs_new)] $n => $f; )*
+            $( #[kani::unwind(4)] #[kani::stub(std::fmt::format, crate::stubs::fmt_stub)] #[kani::stub(std::hash::RandomState::new, crate::stubs::rs_new)] $n => $f; )*
         }
     };
 }
